@@ -78,8 +78,10 @@ Definition allowed_unlinked (recipe : list lprov) (dst : string) : bool :=
 
 Definition link_for (recipe : list lprov) (top : bool) (fields params : list string) (dst : string) (required : bool) : linking :=
   match find_link recipe top fields params dst with
+  | Some LError | None =>
+      (* _fetch_linkings: any failure to link an optional field is forgiven when the policy allows it to stay unlinked *)
+      if negb required && allowed_unlinked recipe dst then LUnlinked else LError
   | Some l => l
-  | None => if negb required && allowed_unlinked recipe dst then LUnlinked else LError
   end.
 
 (* ---- running the converter ---- *)
